@@ -108,6 +108,13 @@ Definition printf_names (fmt : string) : option (list string) :=
   | None => None
   end.
 
+(* number of positional fields ({} or {0}), counted as io_parser.printf and VmIo._printf do *)
+Definition printf_positional (fmt : string) : option Z :=
+  match scan_fmt (S (String.length fmt)) fmt false false "" [] with
+  | Some names => Some (Z.of_nat (length (filter (fun n => String.eqb n "" || all_digits n) names)))
+  | None => None
+  end.
+
 Definition upper_ascii (c : Ascii.ascii) : Ascii.ascii :=
   let n := Ascii.nat_of_ascii c in if Nat.leb 97 n && Nat.leb n 122 then Ascii.ascii_of_nat (n - 32) else c.
 Fixpoint upper (s : string) : string :=
